@@ -533,53 +533,58 @@ macro_rules! step_stage {
 //@ domain: bounded(<= 3 captures + <= 3 quiets per node; unbounded in the number of calls)
 //@ harness: vk_c10_step_full_s0
 //@ functions: engine/search/move_picker.rs::MovePicker::next, engine/search/move_picker.rs::MovePicker::next_best_move
-//@ timeout: 2400
-//@ mem_gb: 8
+//@ timeout: 3000
+//@ mem_gb: 6.5
 //@ note: inductive step of 'the stream is exactly the generated moves, each once', for a call that STARTS in stage BestMove: from ANY picker state of that stage satisfying the structural invariant (any cursor positions, list order, scores), any hash move (in the lists or none), ARBITRARY killers / counter move / previous move: next either hands out a generated move that had not been handed out and marks exactly that move, or returns None with every generated move handed out; the invariant is re-established; unreachable!() and out-of-range indices are unreachable.  The eleven stage obligations together are the step for every state.
 //@ assumes: callee contracts of generate_captures / generate_quiets (C01: duplicate-free lists, classes disjoint); ArrayVec modelled as a bounded vector of capacity 6; base case C10.step.initial
 step_stage!(vk_c10_step_full_s0, 0, true);
 //@ obligation: C10.step.full.GenCaptures
+//@ tier: thorough
 //@ domain: bounded(<= 3 captures + <= 3 quiets per node; unbounded in the number of calls)
 //@ harness: vk_c10_step_full_s1
 //@ functions: engine/search/move_picker.rs::MovePicker::next, engine/search/move_picker.rs::MovePicker::next_best_move
-//@ timeout: 2400
-//@ mem_gb: 8
+//@ timeout: 3000
+//@ mem_gb: 6.5
 //@ note: inductive step of 'the stream is exactly the generated moves, each once', for a call that STARTS in stage GenCaptures: from ANY picker state of that stage satisfying the structural invariant (any cursor positions, list order, scores), any hash move (in the lists or none), ARBITRARY killers / counter move / previous move: next either hands out a generated move that had not been handed out and marks exactly that move, or returns None with every generated move handed out; the invariant is re-established; unreachable!() and out-of-range indices are unreachable.  The eleven stage obligations together are the step for every state.
 //@ assumes: callee contracts of generate_captures / generate_quiets (C01: duplicate-free lists, classes disjoint); ArrayVec modelled as a bounded vector of capacity 6; base case C10.step.initial
 step_stage!(vk_c10_step_full_s1, 1, true);
 //@ obligation: C10.step.full.GoodCaptures
+//@ tier: thorough
 //@ domain: bounded(<= 3 captures + <= 3 quiets per node; unbounded in the number of calls)
 //@ harness: vk_c10_step_full_s2
 //@ functions: engine/search/move_picker.rs::MovePicker::next, engine/search/move_picker.rs::MovePicker::next_best_move
-//@ timeout: 2400
-//@ mem_gb: 8
+//@ timeout: 3000
+//@ mem_gb: 6.5
 //@ note: inductive step of 'the stream is exactly the generated moves, each once', for a call that STARTS in stage GoodCaptures: from ANY picker state of that stage satisfying the structural invariant (any cursor positions, list order, scores), any hash move (in the lists or none), ARBITRARY killers / counter move / previous move: next either hands out a generated move that had not been handed out and marks exactly that move, or returns None with every generated move handed out; the invariant is re-established; unreachable!() and out-of-range indices are unreachable.  The eleven stage obligations together are the step for every state.
 //@ assumes: callee contracts of generate_captures / generate_quiets (C01: duplicate-free lists, classes disjoint); ArrayVec modelled as a bounded vector of capacity 6; base case C10.step.initial
 step_stage!(vk_c10_step_full_s2, 2, true);
 //@ obligation: C10.step.full.GenQuiets
+//@ tier: thorough
 //@ domain: bounded(<= 3 captures + <= 3 quiets per node; unbounded in the number of calls)
 //@ harness: vk_c10_step_full_s3
 //@ functions: engine/search/move_picker.rs::MovePicker::next, engine/search/move_picker.rs::MovePicker::next_best_move
-//@ timeout: 2400
-//@ mem_gb: 8
+//@ timeout: 3000
+//@ mem_gb: 6.5
 //@ note: inductive step of 'the stream is exactly the generated moves, each once', for a call that STARTS in stage GenQuiets: from ANY picker state of that stage satisfying the structural invariant (any cursor positions, list order, scores), any hash move (in the lists or none), ARBITRARY killers / counter move / previous move: next either hands out a generated move that had not been handed out and marks exactly that move, or returns None with every generated move handed out; the invariant is re-established; unreachable!() and out-of-range indices are unreachable.  The eleven stage obligations together are the step for every state.
 //@ assumes: callee contracts of generate_captures / generate_quiets (C01: duplicate-free lists, classes disjoint); ArrayVec modelled as a bounded vector of capacity 6; base case C10.step.initial
 step_stage!(vk_c10_step_full_s3, 3, true);
 //@ obligation: C10.step.full.Killer1
+//@ tier: thorough
 //@ domain: bounded(<= 3 captures + <= 3 quiets per node; unbounded in the number of calls)
 //@ harness: vk_c10_step_full_s4
 //@ functions: engine/search/move_picker.rs::MovePicker::next, engine/search/move_picker.rs::MovePicker::next_best_move
-//@ timeout: 2400
-//@ mem_gb: 8
+//@ timeout: 3000
+//@ mem_gb: 6.5
 //@ note: inductive step of 'the stream is exactly the generated moves, each once', for a call that STARTS in stage Killer1: from ANY picker state of that stage satisfying the structural invariant (any cursor positions, list order, scores), any hash move (in the lists or none), ARBITRARY killers / counter move / previous move: next either hands out a generated move that had not been handed out and marks exactly that move, or returns None with every generated move handed out; the invariant is re-established; unreachable!() and out-of-range indices are unreachable.  The eleven stage obligations together are the step for every state.
 //@ assumes: callee contracts of generate_captures / generate_quiets (C01: duplicate-free lists, classes disjoint); ArrayVec modelled as a bounded vector of capacity 6; base case C10.step.initial
 step_stage!(vk_c10_step_full_s4, 4, true);
 //@ obligation: C10.step.full.Killer2
+//@ tier: thorough
 //@ domain: bounded(<= 3 captures + <= 3 quiets per node; unbounded in the number of calls)
 //@ harness: vk_c10_step_full_s5
 //@ functions: engine/search/move_picker.rs::MovePicker::next, engine/search/move_picker.rs::MovePicker::next_best_move
-//@ timeout: 2400
-//@ mem_gb: 8
+//@ timeout: 3000
+//@ mem_gb: 6.5
 //@ note: inductive step of 'the stream is exactly the generated moves, each once', for a call that STARTS in stage Killer2: from ANY picker state of that stage satisfying the structural invariant (any cursor positions, list order, scores), any hash move (in the lists or none), ARBITRARY killers / counter move / previous move: next either hands out a generated move that had not been handed out and marks exactly that move, or returns None with every generated move handed out; the invariant is re-established; unreachable!() and out-of-range indices are unreachable.  The eleven stage obligations together are the step for every state.
 //@ assumes: callee contracts of generate_captures / generate_quiets (C01: duplicate-free lists, classes disjoint); ArrayVec modelled as a bounded vector of capacity 6; base case C10.step.initial
 step_stage!(vk_c10_step_full_s5, 5, true);
@@ -587,8 +592,8 @@ step_stage!(vk_c10_step_full_s5, 5, true);
 //@ domain: bounded(<= 3 captures + <= 3 quiets per node; unbounded in the number of calls)
 //@ harness: vk_c10_step_full_s6
 //@ functions: engine/search/move_picker.rs::MovePicker::next, engine/search/move_picker.rs::MovePicker::next_best_move
-//@ timeout: 2400
-//@ mem_gb: 8
+//@ timeout: 3000
+//@ mem_gb: 6.5
 //@ note: inductive step of 'the stream is exactly the generated moves, each once', for a call that STARTS in stage CounterMove: from ANY picker state of that stage satisfying the structural invariant (any cursor positions, list order, scores), any hash move (in the lists or none), ARBITRARY killers / counter move / previous move: next either hands out a generated move that had not been handed out and marks exactly that move, or returns None with every generated move handed out; the invariant is re-established; unreachable!() and out-of-range indices are unreachable.  The eleven stage obligations together are the step for every state.
 //@ assumes: callee contracts of generate_captures / generate_quiets (C01: duplicate-free lists, classes disjoint); ArrayVec modelled as a bounded vector of capacity 6; base case C10.step.initial
 step_stage!(vk_c10_step_full_s6, 6, true);
@@ -596,8 +601,8 @@ step_stage!(vk_c10_step_full_s6, 6, true);
 //@ domain: bounded(<= 3 captures + <= 3 quiets per node; unbounded in the number of calls)
 //@ harness: vk_c10_step_full_s7
 //@ functions: engine/search/move_picker.rs::MovePicker::next, engine/search/move_picker.rs::MovePicker::next_best_move
-//@ timeout: 2400
-//@ mem_gb: 8
+//@ timeout: 3000
+//@ mem_gb: 6.5
 //@ note: inductive step of 'the stream is exactly the generated moves, each once', for a call that STARTS in stage BadCaptures: from ANY picker state of that stage satisfying the structural invariant (any cursor positions, list order, scores), any hash move (in the lists or none), ARBITRARY killers / counter move / previous move: next either hands out a generated move that had not been handed out and marks exactly that move, or returns None with every generated move handed out; the invariant is re-established; unreachable!() and out-of-range indices are unreachable.  The eleven stage obligations together are the step for every state.
 //@ assumes: callee contracts of generate_captures / generate_quiets (C01: duplicate-free lists, classes disjoint); ArrayVec modelled as a bounded vector of capacity 6; base case C10.step.initial
 step_stage!(vk_c10_step_full_s7, 7, true);
@@ -605,8 +610,8 @@ step_stage!(vk_c10_step_full_s7, 7, true);
 //@ domain: bounded(<= 3 captures + <= 3 quiets per node; unbounded in the number of calls)
 //@ harness: vk_c10_step_full_s8
 //@ functions: engine/search/move_picker.rs::MovePicker::next, engine/search/move_picker.rs::MovePicker::next_best_move
-//@ timeout: 2400
-//@ mem_gb: 8
+//@ timeout: 3000
+//@ mem_gb: 6.5
 //@ note: inductive step of 'the stream is exactly the generated moves, each once', for a call that STARTS in stage ScoreQuiets: from ANY picker state of that stage satisfying the structural invariant (any cursor positions, list order, scores), any hash move (in the lists or none), ARBITRARY killers / counter move / previous move: next either hands out a generated move that had not been handed out and marks exactly that move, or returns None with every generated move handed out; the invariant is re-established; unreachable!() and out-of-range indices are unreachable.  The eleven stage obligations together are the step for every state.
 //@ assumes: callee contracts of generate_captures / generate_quiets (C01: duplicate-free lists, classes disjoint); ArrayVec modelled as a bounded vector of capacity 6; base case C10.step.initial
 step_stage!(vk_c10_step_full_s8, 8, true);
@@ -614,8 +619,8 @@ step_stage!(vk_c10_step_full_s8, 8, true);
 //@ domain: bounded(<= 3 captures + <= 3 quiets per node; unbounded in the number of calls)
 //@ harness: vk_c10_step_full_s9
 //@ functions: engine/search/move_picker.rs::MovePicker::next, engine/search/move_picker.rs::MovePicker::next_best_move
-//@ timeout: 2400
-//@ mem_gb: 8
+//@ timeout: 3000
+//@ mem_gb: 6.5
 //@ note: inductive step of 'the stream is exactly the generated moves, each once', for a call that STARTS in stage Quiets: from ANY picker state of that stage satisfying the structural invariant (any cursor positions, list order, scores), any hash move (in the lists or none), ARBITRARY killers / counter move / previous move: next either hands out a generated move that had not been handed out and marks exactly that move, or returns None with every generated move handed out; the invariant is re-established; unreachable!() and out-of-range indices are unreachable.  The eleven stage obligations together are the step for every state.
 //@ assumes: callee contracts of generate_captures / generate_quiets (C01: duplicate-free lists, classes disjoint); ArrayVec modelled as a bounded vector of capacity 6; base case C10.step.initial
 step_stage!(vk_c10_step_full_s9, 9, true);
@@ -623,8 +628,8 @@ step_stage!(vk_c10_step_full_s9, 9, true);
 //@ domain: bounded(<= 3 captures + <= 3 quiets per node; unbounded in the number of calls)
 //@ harness: vk_c10_step_full_s10
 //@ functions: engine/search/move_picker.rs::MovePicker::next, engine/search/move_picker.rs::MovePicker::next_best_move
-//@ timeout: 2400
-//@ mem_gb: 8
+//@ timeout: 3000
+//@ mem_gb: 6.5
 //@ note: inductive step of 'the stream is exactly the generated moves, each once', for a call that STARTS in stage Done: from ANY picker state of that stage satisfying the structural invariant (any cursor positions, list order, scores), any hash move (in the lists or none), ARBITRARY killers / counter move / previous move: next either hands out a generated move that had not been handed out and marks exactly that move, or returns None with every generated move handed out; the invariant is re-established; unreachable!() and out-of-range indices are unreachable.  The eleven stage obligations together are the step for every state.
 //@ assumes: callee contracts of generate_captures / generate_quiets (C01: duplicate-free lists, classes disjoint); ArrayVec modelled as a bounded vector of capacity 6; base case C10.step.initial
 step_stage!(vk_c10_step_full_s10, 10, false);
@@ -633,7 +638,7 @@ step_stage!(vk_c10_step_full_s10, 10, false);
 //@ domain: bounded(<= 3 captures per node; unbounded in the number of calls)
 //@ functions: engine/search/move_picker.rs::MovePicker::next, engine/search/move_picker.rs::MovePicker::new_loud
 //@ timeout: 3000
-//@ mem_gb: 14
+//@ mem_gb: 8
 //@ note: the same inductive step for the captures-only variant: exactly the generated capture-class moves, each once; the quiet generator is never called
 #[kani::proof]
 #[kani::unwind(8)]
